@@ -225,7 +225,7 @@ def load_known():
 
 
 def write_replay(prop, finding):
-    d = os.path.join(ROOT, "replays", prop)
+    d = os.path.join(ROOT if os.path.realpath(REPO) == "/repo" else TARGET, "replays", prop)
     os.makedirs(d, exist_ok=True)
     h = hashlib.sha1(json.dumps(finding, sort_keys=True).encode()).hexdigest()[:16]
     path = os.path.join(d, f"{h}.json")
@@ -259,8 +259,15 @@ def adjudicate(prop, findings):
     return len(seen_new), sorted(seen_known), sorted(seen_new)
 
 
+def evidence_dir():
+    # developer mode (checks against a scratch copy of /repo): keep /verif/evidence untouched
+    if os.path.realpath(REPO) != "/repo":
+        return os.path.join(TARGET, "evidence")
+    return os.path.join(ROOT, "evidence")
+
+
 def write_evidence(prop, tier, seed, level, coverage, assumptions, wall_s, violations, extra=None):
-    os.makedirs(os.path.join(ROOT, "evidence"), exist_ok=True)
+    os.makedirs(evidence_dir(), exist_ok=True)
     ev = {
         "property_id": prop,
         "tier": tier,
@@ -273,7 +280,7 @@ def write_evidence(prop, tier, seed, level, coverage, assumptions, wall_s, viola
     }
     if extra:
         ev.update(extra)
-    path = os.path.join(ROOT, "evidence", f"{prop}.json")
+    path = os.path.join(evidence_dir(), f"{prop}.json")
     tmp = path + ".tmp"
     with open(tmp, "w") as f:
         json.dump(ev, f, indent=1, sort_keys=True)
@@ -398,15 +405,17 @@ def miri_leg(n_programs=32, shards=16, timeout=1500):
 
 LIB_META = {
     "C01": ("exploration", "Pinned: every corpus file x 12-row option array x widths, critical widths (line length of the "
-            "infinite-width output +-1), 4 ranges per file, sort_requires on; seeded: generated programs and corpus mutants "
-            "under random configurations and their critical widths. Oracle: the checker's own full_moon parse of the output "
+            "infinite-width output +-1), 4 ranges per file, sort_requires on, 26 degenerate programs (empty, comment-only, "
+            "shebang-only ...), and the single-comment enumeration (one comment of 3 shapes after every token of the small "
+            "corpus files, default and alternative option row); seeded: generated programs (also with a statement-aligned "
+            "range) and corpus mutants under random configurations and their critical widths. Oracle: the checker's own full_moon parse of the output "
             "under the same syntax plus the checker's own lexer. Non-trivial = distinct (program, configuration, range) whose "
             "output differs from the input and for which the formatter took at least one logical step."),
-    "C02": ("exploration", "Same workload as C01 with sort_requires off. Oracles: semantic normal form N (generic AST "
+    "C02": ("exploration", "Same workload as C01 (incl. the single-comment enumeration and degenerate programs) with sort_requires off. Oracles: semantic normal form N (generic AST "
             "traversal erasing only the permitted differences) of input vs output, and the own-lexer token stream. "
             "Non-trivial as for C01."),
     "C03": ("exploration", "Same workload as C01 (statement-level comments in seeded programs; every comment the corpus "
-            "contains). Oracle: own-lexer comment census (multiset of kind, level, text under the two permitted "
+            "contains; the single-comment enumeration; every corpus file rewritten with CRLF and mixed line endings). Oracle: own-lexer comment census (multiset of kind, level, text under the two permitted "
             "normalisations) plus token-stream equality (no code swallowed by a comment). Non-trivial as for C01."),
     "C06": ("exploration", "Corpus x option array x widths and critical widths, generated programs and mutants (seeded, "
             "width >= 40). Oracle: byte equality of format(format(p)) and format(p). Non-trivial as for C01."),
@@ -417,7 +426,8 @@ LIB_META = {
             "workload is repeated on a release+debug-assertions+overflow-checks build. Oracles: no unwind out of format_code (panic "
             "origin from the panic location), no worker abort (subprocess attribution), H1 tick budget 20000+400n+n^2 and growth bound, "
             "accept/reject agreement with the checker's parser, own-lexer bracket balance on accepted inputs. Non-trivial as for C01."),
-    "C10": ("exploration", "Corpus and generated programs rendered with LF/CRLF/mixed endings and tab/space/mixed "
+    "C10": ("exploration", "Corpus (as is, and every file rewritten with CRLF and with mixed endings x Unix/Windows), degenerate programs and "
+            "generated programs rendered with LF/CRLF/mixed endings and tab/space/mixed "
             "indentation x line_endings x indent_type x indent_width x widths. Oracle: byte-level line-ending, "
             "indentation and end-of-file rules outside string contents (own lexer masks). Non-trivial as for C01."),
 }
